@@ -119,6 +119,22 @@ Definition documented_decls : list (string * string) :=
     ("json2xml", "--output-dir"); ("json2xml", "--specroot"); ("json2xml", "--dataroot"); ("json2xml", "--resultprefix"); ("json2xml", "--patch");
     ("xml2json", "--basedir"); ("xml2json", "--mount"); ("xml2json", "--output-file") ].
 
+
+(* ---------- order facts: which call is the LAST to set pyhf's global backend/optimizer state ---------- *)
+(* cli_state_order (generated): per command, for every set_backend call in source order, the parameters reaching it *)
+Definition last_carries (t : list (string * list (list string))) (d : string * list string) : bool :=
+  match assoc (fst d) t with
+  | Some calls => match rev calls with
+                  | lastc :: _ => forallb (fun p => existsb (String.eqb p) lastc) (snd d)
+                  | [] => false end
+  | None => false end.
+(* the optimiser and its settings must be carried by the last state-setting call: nothing resets them afterwards *)
+Definition last_state_documented : list (string * list string) :=
+  [ ("cls", ["optimizer"; "optconf"]); ("fit", ["optimizer"; "optconf"]) ].
+(* cli_multi_loops (generated): (command, multiple-option, variable, accumulates) for each variable a `for` loop over the values
+   of a repeatable option assigns and the code after the loop reads: it must be folded over all values, not keep the last *)
+Definition non_accumulating (t : list (string * string * string * bool)) := filter (fun x => negb (snd x)) t.
+
 (* ---------- model of a subcommand ---------- *)
 Section Command.
 Variable dumps : json -> string.       (* json.dumps(., indent=4) of a tree whose keys are already sorted *)
